@@ -271,7 +271,7 @@ def gen_program(tier, rng):
     w.observe_all()
     labels['boundary'] = len(p.ops)
     # -- random nesting, parents chosen anywhere (siblings interleaved), members appended in between
-    n_rand = 900 if quick else 30000
+    n_rand = 900 if quick else 40000
     for i in range(n_rand):
         t = rng.random()
         if t < 0.22:
@@ -301,7 +301,7 @@ def gen_program(tier, rng):
                 if p.info[parents[i]]['hetero'] else w.construct('block', parents[i])
     labels['interleaved'] = len(p.ops)
     # -- long member lists (positions at the far end)
-    long_n = 300 if quick else 2500
+    long_n = 1100 if quick else 5000
     en, ebody, _ = p.udt('enum', roots[4]); w.nodes.append(en); w.reg(ebody); w.enums.append((en, ebody))
     cl, cbody, cbases = p.udt('class', roots[4]); w.nodes.append(cl); w.reg(cbody); w.reg(cbases); w.classes.append((cl, cbases))
     lpl, ln, lparms = p.callable('mapping', cbody, 1); w.nodes += [lpl, ln]; w.reg(lparms); w.plists.append((lpl, lparms))
@@ -581,6 +581,37 @@ class Oracle:
                 wants['level'] = str(self.N[N['cont']]['level'])
         return self.check_fields(op, f, wants)
 
+    def mask(self, op, line):
+        """Blank the fields of an observation line about which the statement says nothing: the owner of sub-regions, EH
+        regions, requires / declarator parameter regions and Where regions; what enclosing() does on a global region; the
+        home of an EH parameter; name and type of entities other than a unit's global namespace."""
+        w = op.split()
+        if len(w) != 2 or w[0] not in ('obs', 'obsn'):
+            return line
+        toks = line.split()
+
+        def blank(keys):
+            return ' '.join(t.split('=', 1)[0] + '=*' if '=' in t and t.split('=', 1)[0] in keys else t for t in toks)
+        if w[0] == 'obs':
+            r = self.ref(w[1], 'r', self.R)
+            if r is None:
+                return line
+            keys = set()
+            if self.R[r]['kind'] not in self.OWNED:
+                keys.add('owner')
+            if self.R[r]['parent'] is None:
+                keys.add('enc')
+            return blank(keys)
+        n = self.ref(w[1], 'n', self.N)
+        if n is None:
+            return line
+        k = self.N[n]['kind']
+        if k == 'ehparam':
+            return blank({'home'})
+        if k in UDT and not self.N[n].get('unit'):
+            return blank({'type', 'name'})
+        return line
+
     def tree_check(self):
         """Tree-ness from the implementation's own answers: following the reported `enc` links from every observed region
         reaches, without repetition, a region that reported global=1, and no region on the way did."""
@@ -639,8 +670,12 @@ def judge(ops, out_i, rc_i, err_i, out_m):
     e = orc.tree_check()
     if e:
         return ('statement', len(ops) - 1, e), orc
+    # the diff is over what the statement constrains; fields it is silent about are masked on both sides (and counted)
     impl_lines = [l for l, _ in impl]
-    d = C.first_diff(impl_lines, model_lines)
+    mi = [orc.mask(op, l) for op, l in zip(ops, impl_lines)] + impl_lines[len(ops):]
+    mm = [orc.mask(op, l) for op, l in zip(ops, model_lines)] + model_lines[len(ops):]
+    orc.stats['unconstrained_differences'] = sum(1 for a, b, c, e in zip(impl_lines, model_lines, mi, mm) if a != b and c == e)
+    d = C.first_diff(mi, mm)
     if d is not None:
         return ('correspondence', d, 'implementation and model disagree at op %d `%s`\n impl : %s\n model: %s\n'
                 'the implementation trace satisfies every clause of C12 that the oracle evaluates, so the theorems no longer '
@@ -664,9 +699,9 @@ def run(tier):
     ok, info, detail = C.prove(res, PID)
     probe = C.build_harness('c12probe', 'asan')
 
-    n_prog = 3 if tier == 'quick' else 2
+    n_prog = 3
     verbs, matrix, labels_all, traces = {}, {}, {}, 0
-    stats = {'max_depth': 0, 'max_walk': 0, 'walks': 0, 'checked_fields': 0}
+    stats = {'max_depth': 0, 'max_walk': 0, 'walks': 0, 'checked_fields': 0, 'unconstrained_differences': 0}
     for k in range(n_prog):
         prog, world, labels = gen_program(tier, rng)
         ops = prog.render()
@@ -681,7 +716,7 @@ def run(tier):
         for a, b in labels.items():
             labels_all[a] = labels_all.get(a, 0) + b
         for s in stats:
-            stats[s] = max(stats[s], orc.stats[s]) if s.startswith('max') else stats[s] + orc.stats[s]
+            stats[s] = max(stats[s], orc.stats.get(s, 0)) if s.startswith('max') else stats[s] + orc.stats.get(s, 0)
         if k == 0:
             res.sample({'first_ops': ops[:14], 'n_ops': len(ops)})
             impl, _ = parse_impl(out_i)
@@ -716,11 +751,14 @@ def run(tier):
     res.cov['walks'] = stats['walks']
     res.cov['longest_walk'] = stats['max_walk']
     res.cov['statement_fields_checked_on_impl_trace'] = stats['checked_fields']
+    res.cov['differences_in_fields_the_statement_does_not_constrain'] = stats['unconstrained_differences']
+    if stats['unconstrained_differences']:
+        C.log('[C12] note: %d observation lines differ from the model only in fields the statement does not constrain' % stats['unconstrained_differences'])
     res.cov['exhaustive'] = False
     res.assumptions += [
         'an owner is required only where the statement names one (class, union, enum, namespace, closure, block, mapping, lambda); '
-        'for sub-regions, EH regions, requires / declarator parameter regions and Where regions the model mirrors the code (no owner)',
-        'EH_parameter::home_region() is not constrained by the statement; the model mirrors the code (the region enclosing the try block)',
+        'for sub-regions, EH regions, requires / declarator parameter regions and Where regions the model mirrors the code (no owner) and a difference there is counted, not reported',
+        'EH_parameter::home_region(), enclosing() of a global region, and name/type of entities other than a unit\'s global namespace are not constrained by the statement; the model mirrors the code and differences are counted, not reported',
         'destruction of the Lexicon is not exercised (the probe exits without running destructors)',
     ]
     return res.finish(info, rule='each trace is one program on one impl::Lexicon: 5+ units (translation, interface, implementation), '
